@@ -329,6 +329,9 @@ def run(prop, replay_file=None):
         # property is about WHEN a session trades (C14) and by C16's in-backtest part
         kinds = ("single",) if prop == "C19" else (("fixed", "fixed", "single") if prop == "C08" else ("fixed", "fixed", "single", "topn"))
         cfgs = [sr.gen_config(rng, alpha_kinds=kinds) for _ in range(n)]
+        if prop == "C08":
+            rng0 = random.Random(sd * 9973 + 77)
+            cfgs += [sr.gen_zero_units_config(rng0) for _ in range(n // 12)]
     if prop == "C19" and not replay_file:
         rep.cov["evaluations"] += universe_unit(rep)
     w = tlc.scratch()
